@@ -136,8 +136,39 @@ Section BoringG.
 End BoringG.
 
 (* ------------------------------------------------------------------ *)
-(* genes (nu, t): the premise about the skipped genes follows from the two END POINTS
-   +-boring_t per nu and monotonicity between them *)
+(* the premise about the skipped genes follows from the two END POINTS +-boring_t at the gene's nu and
+   monotonicity between them - for ANY type of gene with a preorder `le` on the genes of one nu inside
+   [-boring_t, boring_t] (elo g, ehi g: the end points at the nu of g).  Used twice: for genes (nu, t) with
+   integer t below (Section Boring), and for the statistics Model/Welch.v derives from the summary
+   statistics (Proofs/WelchP.v: tnu, t = sign * sqrt of a rational) - which is how c11_boring_exact_p_ge and
+   c11_sound_exact_welch are composed (c11_sound_exact_welch_composed). *)
+Section BoringOrd.
+  Variable G : Type.
+  Variables H T : Z.
+  Variable cdfv : G -> option Z.
+  Variable brg : G -> bool.
+  Variable le : G -> G -> Prop.
+  Variables elo ehi : G -> G.
+  Hypothesis between : forall g, brg g = true -> le (elo g) g /\ le g (ehi g).
+  Hypothesis end_lo : forall g c, cdfv (elo g) = Some c -> T <= 2 * c.
+  Hypothesis end_hi : forall g c, cdfv (ehi g) = Some c -> T <= 2 * (2 * H - c).
+  Hypothesis mono : forall a a' c c', le a a' -> cdfv a = Some c -> cdfv a' = Some c' -> c <= c'.
+  Hypothesis nan : forall a a', le a a' \/ le a' a -> cdfv a = None -> cdfv a' = None.
+
+  Lemma skipped_ge_ord : forall g c, brg g = true -> cdfv g = Some c -> T <= 2 * c /\ T <= 2 * (2 * H - c).
+  Proof.
+    intros g c Hb E. destruct (between g Hb) as [B1 B2].
+    destruct (cdfv (elo g)) as [cl|] eqn:El.
+    2:{ rewrite (nan (elo g) g (or_introl B1) El) in E. discriminate E. }
+    destruct (cdfv (ehi g)) as [ch|] eqn:Eh.
+    2:{ rewrite (nan (ehi g) g (or_intror B2) Eh) in E. discriminate E. }
+    pose proof (mono _ _ _ _ B1 El E) as M1.
+    pose proof (mono _ _ _ _ B2 E Eh) as M2.
+    pose proof (end_lo g cl El). pose proof (end_hi g ch Eh). lia.
+  Qed.
+End BoringOrd.
+
+(* genes (nu, t), t an integer over a common denominator *)
 Section Boring.
   Variables H lo hi T b : Z.
   Variable t_cdf : Z -> Z -> option Z.        (* scipy.stats.t.cdf(t, df=nu); None = NaN *)
@@ -166,15 +197,15 @@ Section Boring.
 
   Lemma skipped_ge_nu_t : forall (g : gene) c, boring b g = true -> t_cdf (fst g) (snd g) = Some c ->
     T <= 2 * c /\ T <= 2 * (2 * H - c).
-  Proof.
-    intros [nu t] c Hb E. cbn [fst snd] in *. pose proof (boring_bounds (nu, t) Hb) as Ht. cbn [snd] in Ht.
-    destruct (t_cdf nu (- b)) as [cl|] eqn:El.
-    2:{ rewrite (t_nan nu (- b) t ltac:(lia) Ht El) in E. discriminate E. }
-    destruct (t_cdf nu b) as [ch|] eqn:Eh.
-    2:{ rewrite (t_nan nu b t ltac:(lia) Ht Eh) in E. discriminate E. }
-    pose proof (t_mono nu (- b) t cl c ltac:(lia) ltac:(lia) ltac:(lia) El E) as M1.
-    pose proof (t_mono nu t b c ch ltac:(lia) ltac:(lia) ltac:(lia) E Eh) as M2.
-    pose proof (end_lo nu cl El). pose proof (end_hi nu ch Eh). lia.
+  Proof using b_nonneg end_lo end_hi t_mono t_nan.
+    apply (skipped_ge_ord gene H T (fun g => t_cdf (fst g) (snd g)) (boring b)
+             (fun a a' : gene => fst a = fst a' /\ - b <= snd a /\ snd a <= snd a' /\ snd a' <= b)
+             (fun g => (fst g, - b)) (fun g => (fst g, b))).
+    - intros g Hb. pose proof (boring_bounds g Hb). cbn [fst snd]. repeat split; lia.
+    - intros g c. cbn [fst snd]. apply end_lo.
+    - intros g c. cbn [fst snd]. apply end_hi.
+    - intros [nu a] [nu' a'] c c' (En & L1 & L2 & L3). cbn [fst snd] in *. subst nu'. apply t_mono; assumption.
+    - intros [nu a] [nu' a'] [(En & L1 & L2 & L3)|(En & L1 & L2 & L3)]; cbn [fst snd] in *; subst nu'; apply t_nan; lia.
   Qed.
 
   (* |t| <= boring_t  =>  the exact two-sided p-value is >= p_th *)
